@@ -13,7 +13,7 @@ EXPLANATION = (
     "set_position_attrs in the same arm; dx/dy only outside text/tspan/feOffset; id on reuse instances), dynamic-key "
     "removals are reviewed per function; (3) geometry attributes are rewritten only from a computed bounding box "
     "(set_position_attrs under to_bbox() == Some) and values with units/percentages bypass the box computation before any "
-    "parsing; (4) attribute values and text survive the reader -> writer round trip (escape balance, shared with C02/C03); "
+    "parsing, the bypass predicate being built on the same number parser the arms apply afterwards; (4) attribute values and text survive the reader -> writer round trip (escape balance, shared with C02/C03); "
     "(5) a failed-and-retried element leaves the depth counter intact (shared with C17), so valid documents are not rejected "
     "for their length."
 )
@@ -145,3 +145,23 @@ def from_bbox_only(prog, chk):
     # `passthrough(..)` -> return Ok(None) precedes the strp parsing in every arm that parses
     n_pass = len([1 for n in hirq.exprs(h["body"], "Call") if hirq.callee_path(n).endswith("passthrough")])
     chk.ob(n_pass >= 4, "A13.unit-bypass", "bbox_raw", br.where(), f"values with units / percentages are recognised by passthrough() ({n_pass} uses) and bypass the box computation", "the unit/percentage bypass is no longer applied in bbox_raw")
+    # guard / consumer agreement: the bypass predicate must be built on the very parser(s) the arms apply afterwards,
+    # otherwise a value the predicate does not recognise but the parser rejects turns valid SVG into an error
+    PARSERS = ("svgdx::types::strp", "svgdx::types::split_unit", "svgdx::types::strp_length", "core::str::<impl str>::parse", "std::str::<impl str>::parse")
+    pt = prog.maybe_body(EL + "::bbox_raw::passthrough")
+    if pt is None:
+        chk.anchor_missing("A16.bypass-parser", "bbox_raw::passthrough not found")
+        return
+    chk.touch(pt)
+    used = {c.path for (bb, t, c) in br.call_sites(lambda c: c.path in PARSERS)}
+    for cl in prog.closures_of(br):
+        if cl.id != pt.id:
+            used |= {c.path for (bb, t, c) in cl.call_sites(lambda c: c.path in PARSERS)}
+    guard = {c.path for (bb, t, c) in pt.call_sites(lambda c: c.path in PARSERS)}
+    # the predicate must fail-over on the parser's own verdict: its parser result feeds is_err / is_ok
+    verdict = False
+    for (bb, t, c) in pt.call_sites(lambda c: c.path.split("::")[-1] in ("is_err", "is_ok") and "Result" in c.path):
+        o = R.origin(pt, t["args"][0], carriers={})
+        if o[0] == "call" and "fn" in o[2] and Callee(o[2]["fn"]).path in PARSERS:
+            verdict = True
+    chk.ob(bool(used) and used <= guard and verdict, "A16.bypass-parser", "bbox_raw:passthrough", pt.where(), f"the unit bypass is decided by the same number parser the arms apply afterwards ({sorted(x.split('::')[-1] for x in used)}): whatever that parser rejects (and is not a reference) is passed through", f"bbox_raw parses geometry values with {sorted(used)} but the bypass predicate is built on {sorted(guard)} (parser verdict used: {verdict}): a standard SVG length the predicate does not recognise is rejected instead of passed through")
